@@ -559,16 +559,17 @@ class STRINGN(StringDataType):
     """
 
     code = 0xD9  #: 0xD9
-    ENCODINGS = {1: "utf-8", 2: "utf-16-le", 4: "utf-32-le"}
+    ENCODINGS = {1: "iso-8859-1", 2: "utf-16-le", 4: "utf-32-le"}
 
     @classmethod
     def encode(cls, value: str, char_size: int = 1) -> bytes:
         try:
             encoding = cls.ENCODINGS[char_size]
+            data = value.encode(encoding)
             return (
                 UINT.encode(char_size)
-                + UINT.encode(len(value))
-                + value.encode(encoding)
+                + UINT.encode(len(data) // char_size)
+                + data
             )
         except Exception as err:
             raise DataError(
